@@ -76,17 +76,22 @@ fn min0_history(cx: &mut Ctx, ops: &[(u32, Vec<u64>)], force: bool) {
         let mut must_refuse: Option<bool> = None;
         let mut bad: Option<String> = None;
         let known = |s: &Vec<Option<u64>>, i: usize, x: usize| -> bool { match s.get(i) { Some(Some(w)) => *w == x as u64, _ => true } };
+        // the mutating operations work on the vector itself: a refused one leaves *this* object behind, and the history goes on with it
+        // (`before` is put back only after a panic that is reported as a failure: what such a panic leaves is not a vector any more)
+        let mutating = matches!(*op, 1 | 3 | 4 | 10 | 11 | 12);
+        let before = if mutating { Some(v.clone()) } else { None };
+        let mut refused_in_place = false;
         let r: Result<String, String> = match op {
             0 => { must_refuse = Some(false); guarded(|| { let nv = UintVecMin0::new(a0, a1); nv }).map(|nv| { v = nv; shadow = vec![Some(0); a0]; cap = a1 as u64; "[0]%Z".to_string() }) }
             1 => { // a value the vector was sized for, at an index below the size, has to be stored; beyond the field mask it is refused
                    must_refuse = if a0 < n && (a1 as u64) <= cap { Some(false) } else { None };
-                   let mut v2 = v.clone(); guarded(move || { v2.set(a0, a1); v2 }).map(|nv| { v = nv; if a0 < shadow.len() { shadow[a0] = Some(a1 as u64); } "[0]%Z".to_string() }) }
+                   guarded(|| { v.set(a0, a1); }).map(|_| { if a0 < shadow.len() { shadow[a0] = Some(a1 as u64); } "[0]%Z".to_string() }) }
             2 => { let v2 = v.clone(); let r = guarded(move || v2.get(a0));
                    must_refuse = Some(a0 >= n);
                    if let Ok(x) = &r { if !known(&shadow, a0, *x) { bad = Some(format!("get({}) = {} but a Vec holds {:?}", a0, x, shadow[a0])); } }
                    r.map(|x| format!("[0; {}]%Z", x)) }
-            3 => { must_refuse = Some(false); let mut v2 = v.clone(); guarded(move || { v2.push_back(a0); v2 }).map(|nv| { v = nv; shadow.push(Some(a0 as u64)); cap = cap.max(a0 as u64); "[0]%Z".to_string() }) }
-            4 => { must_refuse = Some(false); let mut v2 = v.clone(); guarded(move || { v2.resize(a0); v2 }).map(|nv| { v = nv;
+            3 => { must_refuse = Some(false); guarded(|| { v.push_back(a0); }).map(|_| { shadow.push(Some(a0 as u64)); cap = cap.max(a0 as u64); "[0]%Z".to_string() }) }
+            4 => { must_refuse = Some(false); guarded(|| { v.resize(a0); }).map(|_| {
                        shadow.resize(a0, None); // bits beyond the old size are whatever memory held
                        "[0]%Z".to_string() }) }
             5 => { v.clear(); shadow.clear(); cap = 0; Ok("[0]%Z".to_string()) }
@@ -101,15 +106,15 @@ fn min0_history(cx: &mut Ctx, ops: &[(u32, Vec<u64>)], force: bool) {
                    must_refuse = Some(n == 0);
                    if let Ok(x) = &r { if n > 0 && !known(&shadow, n - 1, *x) { bad = Some(format!("back() = {} but a Vec holds {:?}", x, shadow[n - 1])); } }
                    r.map(|_| String::new()) }
-            10 => { must_refuse = Some(false); let mut v2 = v.clone(); guarded(move || { v2.shrink_to_fit(); v2 }).map(|nv| { v = nv; String::new() }) }
+            10 => { must_refuse = Some(false); guarded(|| { v.shrink_to_fit(); }).map(|_| String::new()) }
             11 | 12 => { // second argument u64::MAX = "what the vector has now" (the same width / the same maximum)
                    let cur = a1 == usize::MAX;
                    let arg = if !cur { a1 } else if *op == 11 { v.uintbits() } else { v.uintmask() };
                    let bits = if *op == 11 { arg } else if arg == 0 { 0 } else { 64 - (arg as u64).leading_zeros() as usize };
                    let same = bits == v.uintbits(); let fresh = v.mem_size() == 0;
                    must_refuse = Some(bits > 64);
-                   let mut v2 = v.clone(); let o = *op;
-                   guarded(move || { if o == 11 { v2.resize_with_uintbits(a0, arg) } else { v2.resize_with_wire_max_val(a0, arg) }; v2 }).map(|nv| { v = nv;
+                   let o = *op;
+                   guarded(|| { if o == 11 { v.resize_with_uintbits(a0, arg) } else { v.resize_with_wire_max_val(a0, arg) }; }).map(|_| {
                        if fresh { shadow = vec![Some(0); a0]; }                 // nothing was allocated: everything is zero, as after new()
                        else if same { shadow.resize(a0, None); }               // same field width: the common prefix keeps its values
                        else { shadow = vec![None; a0]; }                       // another width reinterprets the bits: not constrained
@@ -154,7 +159,8 @@ fn min0_history(cx: &mut Ctx, ops: &[(u32, Vec<u64>)], force: bool) {
                 if !refusal {
                     let class = if wide || msg.contains("58") || msg.contains("shift left") { Some("min0_width_above_58") } else { None };
                     cx.sum.fail(cell, class, cj.clone(), &format!("op {} {:?} panicked: {}", op, a, msg));
-                }
+                    if let Some(b) = &before { v = b.clone(); }
+                } else if mutating { refused_in_place = true; cx.sum.dist(&format!("min0_refused_op_{}", op)); }
             }
         }
         if let Some(d) = bad { let class = if v.uintbits() > 58 { Some("min0_width_above_58") } else { None }; cx.sum.fail(cell, class, cj.clone(), &d); }
@@ -162,9 +168,21 @@ fn min0_history(cx: &mut Ctx, ops: &[(u32, Vec<u64>)], force: bool) {
             cx.sum.fail(cell, None, cj.clone(), &format!("size {} but a Vec holds {}", v.size(), shadow.len()));
         }
         if v.is_empty() != shadow.is_empty() { cx.sum.fail(cell, None, cj.clone(), "is_empty wrong"); }
+        if refused_in_place && v.size() != shadow.len() { return; } // reading on would be out of bounds
         if !min0_carries_last_load(&v) {
             cx.sum.fail(cell, None, cj.clone(), &format!("after op {} {:?}: the allocation of {} bytes does not carry the 8-byte load of the last of {} fields of {} bits", op, a, v.mem_size(), v.size(), v.uintbits()));
             return; // reading on would be undefined behaviour
+        }
+        if refused_in_place {
+            // the refused operation changed nothing: every element the shadow knows reads back as before (and the field width is the old one)
+            let class = if v.uintbits() > 58 { Some("min0_width_above_58") } else { None };
+            if let Some(b) = &before { if b.uintbits() != v.uintbits() { cx.sum.fail(cell, class, cj.clone(), &format!("the refused op {} {:?} changed the field width from {} to {} bits", op, a, b.uintbits(), v.uintbits())); } }
+            for i in 0..shadow.len().min(300) {
+                if let Some(w) = shadow[i] {
+                    let got = { let vr = &v; guarded(move || vr.get(i)) };
+                    if got.as_ref().ok().map(|x| *x as u64) != Some(w) { cx.sum.fail(cell, class, cj.clone(), &format!("after the refused op {} {:?}: element {} reads {:?} but a Vec holds {}", op, a, i, got, w)); break; }
+                }
+            }
         }
     }
     // model comparison is meaningful only where the model is defined (bits <= 58 paths, modelled operations)
@@ -174,6 +192,38 @@ fn min0_history(cx: &mut Ctx, ops: &[(u32, Vec<u64>)], force: bool) {
         let term = format!("CMin0 [{}] [{}]", ops_coq.join("; "), obs.join("; "));
         cx.shards.push(term, cj);
     }
+}
+
+/// Deterministic family "refused operations inside histories": at each width a vector is filled, then every refusal the type documents
+/// (set at / beyond the size, set of mask + 1, get / get2 / back beyond the end, resize_with_uintbits beyond 64 bits) is asked for between
+/// operations that are carried out; after each refused step the elements are read back from the object that refused.
+/// `ext` = with the operations the model does not know (then the history is judged by the shadow only).
+fn refused_histories() -> Vec<Vec<(u32, Vec<u64>)>> {
+    let mut out = vec![];
+    for (wi, &w) in [1u32, 3, 8, 13, 31, 32, 33, 57, 58].iter().enumerate() {
+        for ext in [false, true] {
+            let m: u64 = (1u64 << w) - 1;
+            let n: u64 = [1u64, 7, 8, 9, 64][wi % 5];
+            let mut ops: Vec<(u32, Vec<u64>)> = vec![(0, vec![n, m])];
+            for i in 0..n { ops.push((1, vec![i, if i % 2 == 0 { m } else { m / 2 + 1 }])); }
+            ops.push((1, vec![n, 1]));            // index = size
+            ops.push((1, vec![0, m + 1]));        // value one above the mask, at an element that holds the mask
+            ops.push((1, vec![n - 1, m + 1]));
+            ops.push((2, vec![n]));
+            ops.push((3, vec![m]));               // carried out: the vector grows by one
+            ops.push((1, vec![n + 1, 0]));        // refused again, one beyond the new size
+            ops.push((1, vec![u64::MAX / 64, 1])); // an index whose bit position overflows
+            if ext { ops.push((8, vec![n])); ops.push((11, vec![n + 1, 65])); ops.push((11, vec![3, 4096])); ops.push((9, vec![])); ops.push((13, vec![n + 1])); }
+            ops.push((1, vec![n, m / 2]));        // carried out
+            ops.push((4, vec![n]));               // shrink by one
+            ops.push((1, vec![n, m]));            // now refused
+            if ext { ops.push((5, vec![])); ops.push((9, vec![])); ops.push((8, vec![0])); ops.push((1, vec![0, 0])); ops.push((3, vec![1])); ops.push((1, vec![0, 2])); ops.push((2, vec![0])); }
+            else { for i in 0..n { ops.push((2, vec![i])); } }
+            ops.push((7, vec![]));
+            out.push(ops);
+        }
+    }
+    out
 }
 
 /// `ext` = also the operations the model does not know (secondary entry points), every field width 0..=58
@@ -540,6 +590,21 @@ pub fn run(args: &Args) {
         let vals: Vec<u32> = (0..split).map(|k| pre(k)).chain((0..np).map(|k| tail(k))).collect();
         uintvector_mixed_case(&mut cx, &vals, split);
     } } } }
+    // refused operations inside histories (deterministic): UintVecMin0 (modelled and extended operation sets), ZipIntVec, and a
+    // SortedUintVecBuilder that refuses values between accepted ones, inside a block, at a block boundary and as the very first answer
+    for ops in refused_histories() { min0_history(&mut cx, &ops, false); cx.sum.dist("refused_family_min0"); }
+    for ops in hist::refused_zip_histories() { hist::zip_history(&mut cx, &ops); cx.sum.dist("refused_family_zip"); }
+    for p in 0..3usize {
+        let c = sorted::preset(p);
+        let bs = 1u64 << c.log2;
+        for &at in &[1u64, 2, bs - 1, bs, bs + 1, 2 * bs] {
+            // ascending by 3 with a value below its predecessor at `at` (refused), an equal value after it (accepted), one more refusal inside the extend chunk
+            let mut vals: Vec<u64> = vec![];
+            for k in 0..(2 * bs + 9) { if k == at { vals.push((3 * k).saturating_sub(4)); vals.push(3 * k - 3); } else if k == at + 4 { vals.push(0); } vals.push(3 * k + 1000 * (k / bs)); }
+            sorted::sorted_case_via(&mut cx, c, &vals, false, 5);
+            cx.sum.dist("refused_family_sorted_builder");
+        }
+    }
     let nh = if th { 40000 } else { 3000 };
     for i in 0..nh {
         let ops = gen_history(&mut rng, i % 2 == 1);
